@@ -1160,6 +1160,17 @@ func Run(c *hx.Ctx) {
 	if only == "" || only == "cconn" {
 		runClientConnect(c, g)
 	}
+	if only == "" || only == "odst" {
+		runOdst(c, &gen{r: c.Rng.Fork().Fork().Fork().Fork(), c: c})
+	}
+	if only == "" || only == "sdsu" {
+		// own generator stream: the streams of the older kinds stay what they were
+		gs := &gen{r: c.Rng.Fork().Fork().Fork(), c: c}
+		runSdsuFixed(c, l)
+		for i := 0; i < c.N(150, 700); i++ {
+			runSdsuRandom(c, gs, l)
+		}
+	}
 	if only != "" {
 		if only == "res" {
 			runResumeLate(c, l)
